@@ -356,11 +356,15 @@ pub fn judge_marker(ty: &str, k: &str, v: &str, send: bool, sync: bool) -> Optio
     None
 }
 
+pub fn repo_dir() -> String {
+    std::env::var("VERIF_REPO").unwrap_or_else(|_| "/repo".into())
+}
+
 fn write_crate(dir: &str, name: &str, main: bool, source: &str, lock_from: &str) -> std::io::Result<()> {
     std::fs::create_dir_all(format!("{}/src", dir))?;
     std::fs::write(
         format!("{}/Cargo.toml", dir),
-        format!("[package]\nname = \"{}\"\nversion = \"0.0.0\"\nedition = \"2021\"\npublish = false\n\n[dependencies]\ncaches = {{ path = \"/repo\" }}\n\n[workspace]\n", name),
+        format!("[package]\nname = \"{}\"\nversion = \"0.0.0\"\nedition = \"2021\"\npublish = false\n\n[dependencies]\ncaches = {{ path = \"{}\" }}\n\n[workspace]\n", name, repo_dir()),
     )?;
     std::fs::write(format!("{}/src/{}", dir, if main { "main.rs" } else { "lib.rs" }), source)?;
     let _ = std::fs::copy(format!("{}/Cargo.lock", lock_from), format!("{}/Cargo.lock", dir));
@@ -461,7 +465,7 @@ pub fn run_e5(verif_dir: &str) -> E5Result {
     // catalogue completeness
     let cat = catalogue();
     let known: BTreeSet<(String, String)> = cat.iter().map(|m| (m.ty.to_string(), m.name.split('(').next().unwrap().to_string())).collect();
-    for (ty, name) in scan_sources("/repo") {
+    for (ty, name) in scan_sources(&repo_dir()) {
         let covered = known.contains(&(ty.clone(), name.clone()))
             || matches!(name.as_str(), "get_" | "get_mut_" | "peek_" | "peek_mut_" | "builder" | "new" | "from_builder" | "hash_key" | "finalize" | "with_hasher" | "with_sizes" | "set_size")
             || name.starts_with("set_")
